@@ -1,2 +1,19 @@
-(* C18 *)
-From WaxModel Require Import Base.
+(* C18 -- Escaping turns any text into a glob that matches exactly that text. *)
+From WaxModel Require Import Base Token Parse Query.
+From WaxProofs Require Import ParseFacts.
+
+(* the literal parser reads an escaped separator-free, backslash-free string back as exactly that string *)
+Theorem C18_escape_roundtrip_component : forall s, plain s = true -> lit_chars (escape s) = Some (s, []).
+Proof. exact lit_chars_escape. Qed.
+Print Assumptions C18_escape_roundtrip_component.
+
+(* every character the parser treats specially, other than `/` and `\`, is reported as a meta-character *)
+Theorem C18_meta_complete :
+  forall c, mem c LIT_SPECIAL = true -> c <> SEP -> c <> BSLASH -> is_meta_character c = true.
+Proof. exact special_is_meta. Qed.
+Print Assumptions C18_meta_complete.
+
+(* escaping leaves strings without meta-characters unchanged *)
+Theorem C18_identity : forall s, existsb is_meta_character s = false -> escape s = s.
+Proof. exact escape_identity. Qed.
+Print Assumptions C18_identity.
